@@ -80,6 +80,11 @@ class LpPacket(TlvModel):
     lp_packet = ModelField(LpTypeNumber.LP_PACKET, LpPacketValue)
 
 
+def _nack_reason(nack: NetworkNack) -> int:
+    # NDNLPv2: a Nack header without a NackReason element is a Nack with reason None
+    return nack.nack_reason if nack.nack_reason is not None else NackReason.NONE
+
+
 def parse_lp_packet(wire: BinaryStr, with_tl: bool = True) -> (int | None, BinaryStr | None):
     """
     Parse an LpPacket, return NackReason (if exists) and the fragment.
@@ -90,7 +95,7 @@ def parse_lp_packet(wire: BinaryStr, with_tl: bool = True) -> (int | None, Binar
     """
     ret = parse_lp_packet_v2(wire, with_tl)
     if ret.nack is not None:
-        return ret.nack.nack_reason, ret.fragment
+        return _nack_reason(ret.nack), ret.fragment
     else:
         return None, ret.fragment
 
@@ -121,7 +126,7 @@ def parse_network_nack(wire: BinaryStr, with_tl: bool = True) -> (int | None, Bi
     ret = LpPacketValue.parse(wire, markers, ignore_critical=True)
 
     if ret.nack is not None:
-        return ret.nack.nack_reason, ret.fragment
+        return _nack_reason(ret.nack), ret.fragment
     else:
         return None, None
 
